@@ -213,8 +213,17 @@ func runRobustLex(rc *RunCtx) *Violation {
 			base := simrt.Depth()
 			simrt.OpBegin(stepCap)
 			p := catch(func() { tok, err = s.lx.Next() })
-			steps, _, capHit := simrt.OpEnd(base)
+			steps, depth, capHit := simrt.OpEnd(base)
 			s.calls++
+			if int64(depth) > rc.agg.MaxDepth {
+				rc.agg.MaxDepth = int64(depth)
+			}
+			if depth > 150 && result == nil {
+				// one Next call works through any number of ignored tokens and Return() hops; its
+				// logical recursion depth must not grow with them (a real stack overflow is fatal)
+				result = viol("recursion", fmt.Sprintf("a single Next call reached a logical recursion depth of %d frames", depth))
+				return
+			}
 			rc.agg.SimSteps += steps
 			if steps > rc.agg.MaxOpSteps {
 				rc.agg.MaxOpSteps = steps
